@@ -294,6 +294,70 @@ func main() {
 	fmt.Fprintf(&out, "def checksumGuardReturns : Bool := %s\ndef checksumComparesSha : Bool := %s\ndef checksumComparesBytes : Bool := %s\n\n",
 		leanBool(checksumGuard), leanBool(shaCompared), leanBool(bytesCompared))
 
+	// ---- 2b. the comparisons of the verification code: which operator relates which two operands inside an
+	// `if` whose body returns. An inequality test (`!=`) weakened to an ordering test (`<`) changes the fact.
+	cmpFact := func(fnName, a, b string) string {
+		fn := p.funcs[fnName]
+		if fn == nil || fn.Body == nil {
+			return "missing-function"
+		}
+		found := "missing"
+		ast.Inspect(fn.Body, func(x ast.Node) bool {
+			ifs, ok := x.(*ast.IfStmt)
+			if !ok || len(ifs.Body.List) == 0 {
+				return true
+			}
+			if _, ok := ifs.Body.List[len(ifs.Body.List)-1].(*ast.ReturnStmt); !ok {
+				return true
+			}
+			ast.Inspect(ifs.Cond, func(y ast.Node) bool {
+				if be, ok := y.(*ast.BinaryExpr); ok {
+					l, r := exprString(be.X), exprString(be.Y)
+					if (l == a && r == b) || (l == b && r == a) {
+						op := be.Op.String()
+						if found == "missing" {
+							found = op
+						} else if found != op {
+							found = found + "," + op
+						}
+					}
+				}
+				return true
+			})
+			return true
+		})
+		return found
+	}
+	comparisons := [][4]string{
+		{"verify.node.count", "decodeNodeFragmentFile", "count", "fileEntry.Count"},
+		{"verify.edge.count", "decodeEdgeFragmentFile", "count", "fileEntry.Count"},
+		{"verify.node.phase", "decodeNodeFragmentFile", "fileEntry.Phase", "PhaseNodes"},
+		{"verify.edge.phase", "decodeEdgeFragmentFile", "fileEntry.Phase", "PhaseEdges"},
+		{"verify.bytes", "verifyChecksumValues", "actualCompressedBytes", "expectedCompressedBytes"},
+		{"verify.sha", "verifyChecksumValues", "actualSHA256", "expectedSHA256"},
+		{"validate.graphCount", "Manifest.validate", "s.Source.GraphCount", "len()"},
+		{"validate.nodeCount", "Manifest.validate", "graphEntry.NodeCount", "nodeFiles"},
+		{"validate.edgeCount", "Manifest.validate", "graphEntry.EdgeCount", "edgeFiles"},
+		{"validate.count.nonneg", "Manifest.validate", "fileEntry.Count", "0"},
+		{"validate.sha.nonempty", "Manifest.validate", "fileEntry.SHA256", "\"\""},
+		{"validate.path.nonempty", "Manifest.validate", "fileEntry.Path", "\"\""},
+		{"load.node.fragmentCount", "loadGraphNodes", "fragmentCount", "fileEntry.Count"},
+		{"load.graph.nodeCount", "loadManifestGraph", "nodeCount", "graphEntry.NodeCount"},
+		{"load.graph.edgeCount", "loadManifestGraph", "edgeCount", "graphEntry.EdgeCount"},
+	}
+	out.WriteString("/-- operator found between the two operands in an error-returning `if` of the named function -/\ndef comparisons : List (String × String) := [\n")
+	for i, c := range comparisons {
+		sep := ","
+		if i == len(comparisons)-1 {
+			sep = ""
+		}
+		fmt.Fprintf(&out, "  (%q, %q)%s\n", c[0], cmpFact(c[1], c[2], c[3]), sep)
+	}
+	out.WriteString("]\n")
+	// the byte-count test is guarded by `expectedCompressedBytes >= 0 &&` (validate refuses negative sizes)
+	fmt.Fprintf(&out, "def bytesGuard : String := %q\n", cmpFact("verifyChecksumValues", "expectedCompressedBytes", "0"))
+	fmt.Fprintf(&out, "def validateBytesNonneg : String := %q\n\n", cmpFact("Manifest.validate", "fileEntry.CompressedBytes", "0"))
+
 	// ---- 3. extraction
 	flags := []string{}
 	if fn := p.funcs["unpackTarFileTracked"]; fn != nil {
